@@ -348,7 +348,42 @@ def _evaluate(ctx, cases):
             signal.alarm(old_alarm)
 
 
+def _string_index_pointers(ctx):
+    """Pointers whose index tokens are held as strings (built by from_parts, by RelativeJSONPointer.to, or given as parts to
+    jsonpath.resolve): resolution fails only with pointer resolution errors, exists() and default= never raise, and a patch
+    addressed by such a pointer fails only with patch errors."""
+    import jsonpath
+    from jsonpath import JSONPatch, JSONPointer
+
+    docs = [{"a": [1, 2]}, {"a": []}, [[1], 2], {"a": {"-5": 1, "7": 2}}, {"a": "str"}]
+    toks = ["-5", "-3", "-2", "-1", "0", "1", "2", "7", "-0", "01", "+1", "#0", "#-1", "-", "", "99999999999999999999"]
+    for d in docs:
+        for t in toks:
+            for mk_name, mk in (("from_parts", lambda: JSONPointer.from_parts(["a", t])), ("to", lambda: JSONPointer("/a").to("0/" + t.replace("~", "~0").replace("/", "~1"))),
+                                ("from_parts(top level)", lambda: JSONPointer.from_parts([t]))):
+                ctx.count("string-index-pointer")
+                b = core.outcome(mk)
+                if "err" in b:
+                    if b.get("family") != "pointer" and b.get("family") != "relpointer":
+                        ctx.violation("building a pointer may only fail with a pointer error", {"token": t, "how": mk_name}, b["err"], "pointer error family")
+                    continue
+                ptr = b["ok"]
+                for what, fn in (("resolve", lambda: ptr.resolve(d)), ("exists", lambda: ptr.exists(d)), ("resolve(default)", lambda: ptr.resolve(d, default=None)),
+                                 ("resolve_parent", lambda: ptr.resolve_parent(d)), ("jsonpath.resolve(parts)", lambda: jsonpath.resolve(["a", t], d)),
+                                 ("patch test", lambda: JSONPatch().test(ptr, 1).apply(copy.deepcopy(d))), ("patch remove", lambda: JSONPatch().remove(ptr).apply(copy.deepcopy(d))),
+                                 ("patch add", lambda: JSONPatch().add(ptr, 0).apply(copy.deepcopy(d)))):
+                    o = core.outcome(fn)
+                    if "err" in o and o.get("family") not in (("patch",) if what.startswith("patch") else ("pointer",)):
+                        ctx.violation("resolution fails only with pointer resolution errors (a patch only with patch errors), whatever tokens the pointer holds and however it was built",
+                                      {"doc": d, "token": t, "built by": mk_name, "call": what}, o["err"], "documented error family")
+                    if what in ("exists", "resolve(default)") and "err" in o:
+                        ctx.violation("exists() and resolve(default=) never raise for a missing location", {"doc": d, "token": t, "built by": mk_name, "call": what}, o["err"], "a value")
+
+
 def evaluate(ctx, cases):
+    if not getattr(ctx, "_sip_done", False):
+        ctx._sip_done = True
+        _string_index_pointers(ctx)
     del core.STR_FAILURES[:]
     try:
         _evaluate(ctx, cases)
